@@ -28,17 +28,19 @@ Items == <<
   I("{a:=5}", "fld"), I("{x!r:{{}}}", "fld"), I("{'q'}", "fldsq"), I("{x:{'>'}{w}}", "fldsq"), I("{*x,}", "fld"),   \* 41-45
   I("\n", "nl"), I("{x : >4}", "fld"), I("{x!r }", "fld"), I("{ x }", "fld"), I("{x:{y:{z}}}", "fld"),        \* 46-50
   I("{x!sr}", "fld"), I("{x!ra}", "fld"), I("{x!z}", "fld"), I("{x!}", "fld"), I("{x!r!s}", "fld"),            \* 51-55 invalid conversions
-  I("{x", "fld"), I("{}", "fld"), I("{x!r:>{w}", "fld"), I("}", "lit"), I("{x:{w}", "fld")                    \* 56-60 malformed
+  I("{x", "fld"), I("{}", "fld"), I("{x!r:>{w}", "fld"), I("}", "lit"), I("{x:{w}", "fld"),                   \* 56-60 malformed
+  I("\"\"\"", "dq"), I("\\\n", "cont"), I("'''", "sq"), I("\\t", "esc"), I("\\x41\\u00e9", "esc")                   \* 61-65
 >>
 Prefixes == <<"f", "F", "rf", "fr", "Rf", "fR", "RF", "Fr">>
 Quotes == <<"'", "\"", "'''", "\"\"\"">>
-Befores == <<"", "'s' ", "f'{q}' ", "x + ", "'s'\n  ", "u'a' ", "u'a' 'b' ", "\"\"\"m\nn\"\"\" ">>
-Afters == <<"", " 't'", " f'{r}'", "  # c", "\n 'u'">>
+Befores == <<"", "'s' ", "f'{q}' ", "x + ", "'s'\n  ", "u'a' ", "u'a' 'b' ", "b'b' ", "U'c' ", "\"\"\"m\nn\"\"\" ">>
+Afters == <<"", " 't'", " f'{r}'", "  # c", "\n 'u'", " b'z'", " rb'y' 'x'">>
 
 Allowed(q, it) ==
   /\ (it.kind \in {"sq", "fldsq"}) => q \in {2, 4}          \* a ' only inside "..." or """..."""
   /\ (it.kind \in {"dq", "flddq"}) => q \in {1, 3}
   /\ (it.kind \in {"fldml", "nl"}) => q \in {3, 4}
+  /\ (it.kind = "cont") => q \in {1, 2}                      \* backslash-newline continues a single-quoted literal
 
 RECURSIVE Cat(_)
 Cat(ss) == IF ss = <<>> THEN "" ELSE Head(ss) \o Cat(Tail(ss))
